@@ -22,6 +22,39 @@ def sc(v):
 
 
 # ------------------------------------------------------------------ Stopper (fp32)
+def stopper_reuse_obligation(chk, N):
+    """one Stopper object used again after its patience / tolerance attributes were re-assigned (optim_flat itself re-assigns `patience` on the
+    stopper it is given): the rule follows the attributes as they are at the time of the call"""
+    from liesel.goose.optim import Stopper
+    F = z3.Float32()
+
+    def f(i, hist):
+        st = Stopper(max_iter=N, patience=1, atol=0.0, rtol=0.0)
+        first = st.stop_early(i, hist)
+        st.patience = 2
+        st.atol = 0.5
+        again = st.stop_early(i, hist)
+        fresh = Stopper(max_iter=N, patience=2, atol=0.5, rtol=0.0).stop_early(i, hist)
+        return dict(first=first, again=again, fresh=fresh)
+    i = z3.Int(f"ru_i_{N}")
+    h = sym_array(f"ru_h_{N}", (N,), F)
+    enc = chk.note_enc(Enc(f"Stopper(max_iter={N}) used twice with re-assigned attributes", f, (2, jnp.zeros(N)), (sc(i), h), mode="fp32"))
+
+    def goal(V):
+        return [z3.Not(z3.fpIsNaN(x)) for x in h] + [i >= 0, i < N], cells(V.out["again"])[0] == cells(V.out["fresh"])[0]
+
+    def replay(ob, model, rng):
+        for hv in (np.array([5, 4, 3.8, 3.7, 3.65, 3.6][:N], dtype=np.float32), np.array([1, 0.9, 0.95, 0.9, 0.9, 0.9][:N], dtype=np.float32)):
+            for iv in range(N):
+                out = f(iv, jnp.asarray(hv))
+                if bool(out["again"]) != bool(out["fresh"]):
+                    return dict(reproduced=True, inputs=dict(i=iv, history=hv.tolist(), first=dict(patience=1, atol=0.0), then=dict(patience=2, atol=0.5)),
+                                observed=dict(reused_stopper=bool(out["again"]), fresh_stopper=bool(out["fresh"])), note="a re-used Stopper ignores its re-assigned patience / atol")
+        return dict(reproduced=False, note="re-used and fresh stoppers agree on two histories x all iterations")
+    return [Obligation(f"Stopper (N={N}): after re-assigning patience and atol on the same object, stop_early decides like a fresh Stopper with those settings", [enc], goal,
+                       signature="stopper:reuse", replay=replay, timeout_s=300)]
+
+
 def stopper_obligations(chk, N, P):
     from liesel.goose.optim import Stopper
     F = z3.Float32()
@@ -452,6 +485,7 @@ def main():
     N = 5 if chk.tier == "quick" else 6
     for P in pats:
         obs += stopper_obligations(chk, N, P)
+    obs += chk.guarded("stopper:reuse:trace", "tracing a re-used Stopper", stopper_reuse_obligation, chk, N) or []
     chk.functions += ["liesel.goose.optim.Stopper.stop_early/stop_now/continue_/which_best_in_recent_history"]
     scen = [(True, False, True), (False, True, True), (True, True, False)] if chk.tier == "quick" else \
         [(v, p, r) for v in (True, False) for p in (True, False) for r in (True, False)]
